@@ -1,4 +1,5 @@
 import VlsModel.Lemmas.Enforcement
+import VlsModel.Lemmas.EnforcementSigs
 /-
 C01 — A holder commitment is revoked only after its successor is counter-signed.
 
@@ -208,6 +209,61 @@ theorem C01_gen_ties :
     Gen.Enforcement.secretIndexBits = 48 ∧ Secrets.N48 = 2 ^ Gen.Enforcement.secretIndexBits ∧
     INITIAL + 1 = Secrets.N48 ∧ PROTOCOL_VERSION_REVOKE < PROTOCOL_VERSION_NO_SECRET := by decide
 
+/-! ### "…counterparty signatures that verify against the transaction it rebuilt for n+1 (commitment and every HTLC)"
+
+`check_holder_tx_signatures` is inside the model since round 8: the harness supplies one ECDSA fact per signature
+(`commitOk`, and for the `i`-th supplied HTLC signature whether it verifies against the `i`-th HTLC transaction), the
+number of HTLCs of the recomposed transaction and the verdict of the payment check; `sigFactOf` (= the loop of the
+code: index panic on a short list, surplus signatures never looked at) computes what `validate` meets. -/
+
+/-- **C01_main_sigs**: every disclosed secret `k` is preceded (in the same history, at or before the disclosing
+    request) by a validate request for `k+1` — direct or through the handler — whose signature fact is `valid` and
+    whose content passed the policy. -/
+theorem C01_main_sigs (F : Nat → Bytes → Bytes) (ops : List Op) (post pre : Hist) (e : Op × Out) (k : Nat)
+    (hh : (runH F init [] ops).2 = post ++ e :: pre) (hk : e.2.secret = some k) :
+    ∃ e' ∈ e :: pre, (∃ info, e'.1 = .validate (k + 1) info .valid true) ∨
+                     (∃ ver info, e'.1 = .hValidate ver (k + 1) info .valid true) := by
+  have a := C01_main_event F ops post pre e k hh hk
+  refine accepted_request F ops (e :: pre) (k + 1) ?_ a
+  intro x hx
+  rw [hh]
+  exact List.mem_append_right _ hx
+
+/-- **C01_every_htlc**: a validation computed from per-signature facts is accepted only if the commitment signature
+    verifies and EVERY one of the `nHtlc` HTLCs of the rebuilt transaction has a verifying signature at its position
+    (and the payment check and the content rules pass). -/
+theorem C01_every_htlc (c : Chan) (n info m nHtlc : Nat) (commitOk payOk pk : Bool) (sigs : List Bool)
+    (h : (validate c n info (sigFactOf commitOk nHtlc sigs payOk) pk).out.validated = some m) :
+    m = n ∧ commitOk = true ∧ (∀ i, i < nHtlc → sigs[i]? = some true) ∧ payOk = true ∧ pk = true := by
+  obtain ⟨h1, h2, h3⟩ := validate_validated h
+  obtain ⟨a, b, d⟩ := (sigFactOf_valid_iff commitOk nHtlc sigs payOk).mp h2
+  exact ⟨h1, a, b, d, h3⟩
+
+/-- the loop's outcomes, as the code has them: `valid` ⇔ all verify; a short list is the index panic exactly when the
+    commitment signature and every supplied signature verify; surplus signatures do not matter -/
+theorem C01_sigs_cases (commitOk payOk : Bool) (nHtlc : Nat) (sigs : List Bool) :
+    (sigFactOf commitOk nHtlc sigs payOk = .valid ↔
+        commitOk = true ∧ (∀ i, i < nHtlc → sigs[i]? = some true) ∧ payOk = true) ∧
+    (sigFactOf commitOk nHtlc sigs payOk = .oob ↔
+        commitOk = true ∧ sigs.length < nHtlc ∧ ∀ i, i < sigs.length → sigs[i]? = some true) ∧
+    (∀ extra, nHtlc ≤ sigs.length →
+        sigFactOf commitOk nHtlc (sigs ++ extra) payOk = sigFactOf commitOk nHtlc sigs payOk) := by
+  refine ⟨sigFactOf_valid_iff _ _ _ _, sigFactOf_oob_iff _ _ _ _, ?_⟩
+  intro extra hle
+  unfold sigFactOf checkSigs
+  rw [checkHtlcSigs_surplus nHtlc sigs extra hle]
+
+/-- a short list never validates: nothing is recorded, the reply is the panic (or an earlier refusal) -/
+theorem C01_short_list_never_accepted (c : Chan) (n info nHtlc : Nat) (commitOk payOk pk : Bool) (sigs : List Bool)
+    (hs : sigs.length < nHtlc) :
+    (validate c n info (sigFactOf commitOk nHtlc sigs payOk) pk).out.validated = none := by
+  cases hv : (validate c n info (sigFactOf commitOk nHtlc sigs payOk) pk).out.validated with
+  | none => rfl
+  | some m =>
+    exfalso
+    have := (C01_every_htlc c n info m nHtlc commitOk payOk pk sigs hv).2.2.1 sigs.length hs
+    simp at this
+
 /-! ### Non-vacuity: concrete histories -/
 
 /-- validate 0, activate, validate 1, revoke 1 discloses secret 0; the history justifies it -/
@@ -221,5 +277,16 @@ example : ((runH shaF init [] [.setup, .validate 0 0 .valid true, .activate, .va
 /-- old protocol: one request validates 1 and discloses 0 -/
 example : ((runH shaF init [] [.setup, .hValidate 4 0 0 .valid true, .hValidate 4 1 1 .valid true]).2.head?.map
     (fun e => (e.2.secret, e.2.validated))) = some (some 0, some 1) := by decide
+
+/-- three HTLCs, three verifying signatures: accepted; the middle one wrong: refused; only two supplied: panic;
+    a fourth (surplus, not verifying) one: accepted -/
+example : sigFactOf true 3 [true, true, true] true = .valid ∧ sigFactOf true 3 [true, false, true] true = .invalid ∧
+    sigFactOf true 3 [true, true] true = .oob ∧ sigFactOf true 3 [true, true, true, false] true = .valid ∧
+    sigFactOf false 3 [true, true, true] true = .invalid ∧ sigFactOf true 3 [false, true] true = .invalid ∧
+    sigFactOf true 0 [] false = .validUnpaid := by decide
+
+example : ((runH shaF init [] [.setup, .validate 0 0 (sigFactOf true 0 [] true) true, .activate,
+    .validate 1 5 (sigFactOf true 2 [true, true] true) true, .revoke 1 true]).2.head?.map (·.2.secret))
+    = some (some 0) := by decide
 
 end VlsModel.Props.C01
